@@ -140,6 +140,8 @@ class LibModel:
             if r.kind == 'class':
                 return [(st, C(Ref('classattr', f"{r.name}.{name}")))]
         if isinstance(recv, Obj):
+            if recv.kind == 'super_proxy':
+                return [(st, Meth(recv, name))]
             if recv.kind == 'rxnode' and name == 'name':
                 return [(st, C('<nodename>'))]
             if recv.kind == 'counter':
@@ -541,7 +543,11 @@ class LibModel:
                 if ids is None:
                     return None
                 s3 = s3.clone()
-                outs.append((s3, eng.new_dict(s3, s3.dicts[x.ref].restrict(ids), own=True)))
+                nd = eng.new_dict(s3, s3.dicts[x.ref].restrict(ids), own=True)
+                der = dict(s3.ghost.get('derived', {}))
+                der[nd.ref] = (x.ref, ids)          # provenance: restriction of which dict to which keys
+                s3.ghost['derived'] = der
+                outs.append((s3, nd))
         return outs
 
     def key_ids(self, eng, st, y):
